@@ -172,6 +172,7 @@ func runCheck(repo, prop, tier string, rest []string) int {
 			return len(o.Props) == 0 || hasProp(o.Props, prop)
 		})
 	}
+	c.checkReadonlyGlobals()
 	for _, h := range propHooks[prop] {
 		h(c)
 	}
@@ -424,3 +425,44 @@ func writeReplay(path, prop string, g *gen, o *Obligation, repo string) string {
 }
 
 var _ = ssa.BuilderMode(0)
+
+// checkReadonlyGlobals: every `readonly` global that a verified function relied on must be stored to only
+// by the package initializer (a syntactic, exhaustive scan of the SSA of the whole repository).
+func (c *checkCtx) checkReadonlyGlobals() {
+	used := map[string]bool{}
+	for _, g := range c.gens {
+		for a := range g.assumed {
+			if strings.HasPrefix(a, "readonly global ") {
+				name := strings.Fields(a[len("readonly global "):])[0]
+				used[name] = true
+			}
+		}
+	}
+	var names []string
+	for n := range used {
+		names = append(names, n)
+	}
+	sort.Strings(names)
+	for _, name := range names {
+		var writers []string
+		for _, k := range c.e.sortedFuncKeys() {
+			fn := c.e.funcs[k]
+			for _, b := range fn.Blocks {
+				for _, ins := range b.Instrs {
+					st, ok := ins.(*ssa.Store)
+					if !ok {
+						continue
+					}
+					gl, ok := st.Addr.(*ssa.Global)
+					if !ok || gl.Pkg == nil {
+						continue
+					}
+					if shortPkg(gl.Pkg.Pkg.Path())+"."+gl.Name() == name && fn.Name() != "init" {
+						writers = append(writers, k)
+					}
+				}
+			}
+		}
+		c.direct = append(c.direct, &directResult{Name: "global/" + name + "/written-only-by-initializer", OK: len(writers) == 0, Detail: "stores to " + name + " outside the package initializer: " + strings.Join(writers, ", ")})
+	}
+}
